@@ -162,6 +162,46 @@ func TestVerif_C09(t *testing.T) {
 				pfx2[i] = randomPixLike(rng, pfx[i], base)
 			}
 		}
+		if idx%16 == 5 {
+			// crafted pair for the dynamic threshold: prefix A lets the per-pixel background weights
+			// build up (scene 60 above the seeded background for 260 frames), prefix B keeps them at
+			// zero; after the FFC the scene warms by 1 per frame. Everything the detector remembers
+			// about the background must start afresh after the FFC, so both runs must agree.
+			cfg = detConfig{W: 6, H: 5, FPS: 9, Edge: rng.Range(0, 1), Gap: 5, Count: 1, Delta: 1, Temp: 2900, OneDiff: true, Dynamic: true, PreviewFrames: 1}
+			dynamic, useReset, diffLen, via = true, false, false, idx%32 == 5
+			uni := func(v uint16, t time.Duration, ffc time.Duration) detFrame {
+				pix := make([][]uint16, cfg.H)
+				for y := range pix {
+					pix[y] = make([]uint16, cfg.W)
+					for x := range pix[y] {
+						pix[y][x] = v
+					}
+				}
+				return detFrame{Pix: pix, TimeOn: t, LastFFC: ffc}
+			}
+			pfx, pfx2, suffix = nil, nil, nil
+			t := time.Minute
+			for i := 0; i < 260; i++ {
+				t += time.Second / 9
+				a, b := uint16(3060), uint16(3000)
+				if i == 0 {
+					a = 3000
+				}
+				pfx = append(pfx, uni(a, t, 0))
+				pfx2 = append(pfx2, uni(b, t, 0))
+			}
+			ffcAt := t + time.Second/9
+			for i := 0; i < 3; i++ {
+				t += time.Second / 9
+				suffix = append(suffix, uni(3150, t, ffcAt))
+			}
+			t += 11 * time.Second
+			for k := 0; k < 45; k++ {
+				t += time.Second / 9
+				suffix = append(suffix, uni(uint16(3200+k), t, ffcAt))
+			}
+			c.Count("crafted_weight_pairs", 1)
+		}
 		badAt := -1
 		c.Case(idx, func() interface{} {
 			all := append(append([]detFrame{}, pfx...), suffix...)
